@@ -31,6 +31,149 @@ def tree_hash(repo=REPO):
     return h.hexdigest()[:20]
 
 
+def _file_hashes(repo=REPO):
+    out = {}
+    root = os.path.join(repo, 'TidalPy')
+    for dp, dn, fn in os.walk(root):
+        dn[:] = [d for d in dn if d != '__pycache__']
+        for f in fn:
+            if f.endswith('.py'):
+                p = os.path.join(dp, f)
+                with open(p, 'rb') as fh:
+                    out[os.path.relpath(p, repo)] = hashlib.sha256(fh.read()).hexdigest()
+    return out
+
+
+def _import_graph(repo, files):
+    """module file -> set of TidalPy module files it imports (module level or inside functions); over-approximate."""
+    import ast
+    fileset = set(files)
+
+    def resolve(parts):
+        hits = set()
+        base = os.path.join(*parts) if parts else ''
+        for cand in (base + '.py', os.path.join(base, '__init__.py')):
+            if cand in fileset:
+                hits.add(cand)
+        return hits
+    graph = {}
+    for rel in files:
+        deps = set()
+        try:
+            with open(os.path.join(repo, rel), 'rb') as fh:
+                tree = ast.parse(fh.read())
+        except SyntaxError:
+            graph[rel] = None          # unknown: depends on everything
+            continue
+        pkg = rel.split(os.sep)[:-1]
+        for node in ast.walk(tree):
+            if isinstance(node, ast.Import):
+                for a in node.names:
+                    parts = a.name.split('.')
+                    if parts[0] == 'TidalPy':
+                        for i in range(1, len(parts) + 1):
+                            deps |= resolve(parts[:i])
+            elif isinstance(node, ast.ImportFrom):
+                if node.level:
+                    base = pkg[:len(pkg) - (node.level - 1)] if node.level > 1 else list(pkg)
+                    parts = base + (node.module.split('.') if node.module else [])
+                elif node.module and node.module.split('.')[0] == 'TidalPy':
+                    parts = node.module.split('.')
+                else:
+                    continue
+                for i in range(1, len(parts) + 1):
+                    deps |= resolve(parts[:i])
+                for a in node.names:
+                    deps |= resolve(parts + [a.name])
+        deps.discard(rel)
+        graph[rel] = deps
+    return graph
+
+
+def _seed_cache(new_dir, base, repo=REPO):
+    """Start a new per-tree numba cache from the most recent cache of the same repository path, *without* the entries of every
+    module that changed or that (transitively) imports a changed module.  numba itself only notices a change of the file that
+    defines a cached function; dropping the import closure removes the stale-callee hole while keeping the expensive,
+    unaffected entries (the big eccentricity / inclination tables).  Any problem -> no seeding (cold cache, always sound)."""
+    import json
+    import shutil
+    import time
+    new_hashes = _file_hashes(repo)
+    man_new = dict(repo=os.path.realpath(repo), files=new_hashes, seeded_from=None)
+    try:
+        cands = []
+        for x in os.listdir(base):
+            d = os.path.join(base, x)
+            mp = os.path.join(d, 'manifest.json')
+            if d != new_dir and os.path.isfile(mp):
+                m = json.load(open(mp))
+                if m.get('repo') == os.path.realpath(repo) and m.get('complete'):
+                    cands.append((os.path.getmtime(d), d, m))
+        if cands:
+            _, src, m = max(cands)
+            old = m['files']
+            changed = {f for f in set(old) | set(new_hashes) if old.get(f) != new_hashes.get(f)}
+            graph = _import_graph(repo, list(new_hashes))
+            affected = set(changed)
+            grew = True
+            while grew:
+                grew = False
+                for f, deps in graph.items():
+                    if f not in affected and (deps is None or deps & affected):
+                        affected.add(f)
+                        grew = True
+            # numba's user-wide cache layout: <cache>/<dirname>_<sha1(abs dir)>/<module>.<func>-<line>.pyXY.{nbi,N.nbc}
+            drop = set()
+            for f in affected:
+                ad = os.path.dirname(os.path.join(os.path.realpath(repo), f))
+                ad2 = os.path.dirname(os.path.join(repo, f))
+                mod = os.path.basename(f)[:-3]
+                for a in {ad, ad2, os.path.abspath(ad2)}:
+                    drop.add((os.path.basename(a) + '_' + hashlib.sha1(a.encode()).hexdigest(), mod))
+            n_copied = n_dropped = 0
+            for sub in os.listdir(src):
+                sp = os.path.join(src, sub)
+                if not os.path.isdir(sp):
+                    continue
+                for fn in os.listdir(sp):
+                    mod = fn.split('.', 1)[0]
+                    if (sub, mod) in drop:
+                        n_dropped += 1
+                        continue
+                    os.makedirs(os.path.join(new_dir, sub), exist_ok=True)
+                    shutil.copy2(os.path.join(sp, fn), os.path.join(new_dir, sub, fn))
+                    n_copied += 1
+            man_new['seeded_from'] = dict(dir=os.path.basename(src), changed=sorted(changed)[:50], affected_modules=len(affected),
+                                          files_copied=n_copied, files_dropped=n_dropped)
+    except Exception as e:     # never let an optimisation break a check
+        man_new['seed_error'] = f'{type(e).__name__}: {e}'
+        for sub in os.listdir(new_dir):
+            sp = os.path.join(new_dir, sub)
+            if os.path.isdir(sp):
+                shutil.rmtree(sp, ignore_errors=True)
+    tmp = os.path.join(new_dir, f'manifest.{os.getpid()}.tmp')
+    json.dump(man_new, open(tmp, 'w'))
+    os.replace(tmp, os.path.join(new_dir, 'manifest.json'))
+
+
+def mark_cache_complete():
+    """Called by the driver at the end of a run: this tree's cache may now serve as a seed for other trees."""
+    import json
+    d = os.environ.get('VERIF_NUMBA_DIR')
+    if not d:
+        return
+    mp = os.path.join(d, 'manifest.json')
+    try:
+        m = json.load(open(mp))
+        if not m.get('complete'):
+            m['complete'] = True
+            tmp = os.path.join(d, f'manifest.{os.getpid()}.tmp')
+            json.dump(m, open(tmp, 'w'))
+            os.replace(tmp, mp)
+    except Exception:
+        pass
+
+
 def numba_cache_dir():
     d = os.environ.get('VERIF_NUMBA_DIR')
     if d:
@@ -38,7 +181,15 @@ def numba_cache_dir():
     base = os.path.join(CACHE, 'numba')
     th = tree_hash()
     d = os.path.join(base, th)
+    fresh = not os.path.isdir(d)
     os.makedirs(d, exist_ok=True)
+    if fresh or not os.path.isfile(os.path.join(d, 'manifest.json')):
+        if os.environ.get('VERIF_NUMBA_SEED', '1') == '1' and not os.listdir(d):
+            _seed_cache(d, base)
+        elif not os.path.isfile(os.path.join(d, 'manifest.json')):
+            import json
+            json.dump(dict(repo=os.path.realpath(REPO), files=_file_hashes(), seeded_from=None),
+                      open(os.path.join(d, 'manifest.json'), 'w'))
     # bound disk use: keep the 12 most recently used tree caches; never remove one used within the last 3 hours
     # (another check may be running against that tree right now)
     try:
